@@ -324,17 +324,17 @@ func runReestablish(s *sink, c *kit.Ctx, i int, st *detStats) {
 	}
 	// all watches on removed informers are gone, the others untouched
 	if variant != "startwatches-during-removal" {
-	for _, x := range was {
-		n, rel := liveCount(w, a, x)
-		want := 1
-		if rm[x.GVK] {
-			want = 0
+		for _, x := range was {
+			n, rel := liveCount(w, a, x)
+			want := 1
+			if rm[x.GVK] {
+				want = 0
+			}
+			if n != want {
+				s.Violate("informer-removal-live-count", caseName, fmt.Sprintf("after RemoveInformer: watch %s of %q has %d live registrations, want %d", widStr(x), a, n, want),
+					map[string]any{"variant": variant, "registrations": regSummaries(rel), "history": r0.recs})
+			}
 		}
-		if n != want {
-			s.Violate("informer-removal-live-count", caseName, fmt.Sprintf("after RemoveInformer: watch %s of %q has %d live registrations, want %d", widStr(x), a, n, want),
-				map[string]any{"variant": variant, "registrations": regSummaries(rel), "history": r0.recs})
-		}
-	}
 	}
 	key := "watch-not-reestablished-after-informer-removal"
 	switch variant {
@@ -481,6 +481,56 @@ func runStopInflight(s *sink, c *kit.Ctx, i int, st *detStats) bool {
 	s.Count("stop_inflight.cases", 1)
 	opsByType(all, st.ops)
 	return true
+}
+
+// runRestartSameName is part (i): a controller is stopped while it still waits for its caches (its
+// Start then returns an ERROR, as controller-runtime's does) and a new controller is started
+// under the same name at once - what the XRD reconciler does when the referenceable version
+// changes. The engine's clean-up for the failed old incarnation must not take the new one down.
+func runRestartSameName(s *sink, c *kit.Ctx, i int, st *detStats) {
+	caseName := fmt.Sprintf("restart-same-name/%d", i)
+	rng := c.Rng("restart-same-name", i)
+	a := ctrlNames[rng.IntN(3)]
+	w := newWorld(worldPlain, &staticClient{items: map[schema.GroupKind][]map[string]any{}})
+	r0 := &recorder{w: w, g: -1}
+	_ = r0.Start(a, ncErrOnCancel, false)
+	if incs := w.incarnations(a); len(incs) != 1 || !waitStarted(incs[0]) {
+		s.Inconclusive("restart-same-name: the first incarnation never started")
+		return
+	}
+	_ = r0.Stop(a)
+	_ = r0.Start(a, ncOK, false)
+	was := pickSome(rng, watchIDs(a), 1, 3)
+	_ = r0.StartWatches(a, was...)
+	old := w.incarnations(a)[0]
+	select {
+	case <-old.returned:
+	case <-time.After(30 * time.Second):
+		s.Inconclusive("restart-same-name: the stopped incarnation's Start never returned")
+		return
+	}
+	// the engine's clean-up for the old incarnation runs right after its Start returned; give it
+	// (a bounded number of yields and a little time) to act, then look
+	taken := false
+	for k := 0; k < 40 && !taken; k++ {
+		time.Sleep(5 * time.Millisecond)
+		taken = !w.eng.IsRunning(a)
+	}
+	if taken {
+		incs := w.incarnations(a)
+		cancelled := len(incs) > 1 && incs[1].ctx() != nil && incs[1].ctx().Err() != nil
+		live := 0
+		for _, x := range was {
+			n, _ := liveCount(w, a, x)
+			live += n
+		}
+		s.Violate("restarted-controller-stopped-by-cleanup-of-its-predecessor", caseName,
+			fmt.Sprintf("controller %q was stopped while syncing (its Start returned an error) and started again at once; nobody stopped the new controller, yet IsRunning is false (new context cancelled: %v, live handlers of its %d watches: %d)", a, cancelled, len(was), live),
+			map[string]any{"history": r0.recs})
+	}
+	s.Eval(fmt.Sprintf("restart-same-name|%s|%d", a, i), true)
+	s.Count("restart_same_name.cases", 1)
+	_ = st
 }
 
 func runFailingStop(s *sink, c *kit.Ctx, i int, st *detStats) {
